@@ -17,7 +17,9 @@ from symx.prove import Prover
 from symx.runner import Acc
 from harness.common import bound, z, fval
 from harness.geom import DirStub
-from harness.fgstub import make_fullgrid, BRot
+from harness.fgstub import make_fullgrid, BRot, exercise_full_decoys, decoy_value_factory, float_decoy_values
+
+ARRAY_GETTERS = dict(FULL_GETTERS=("get_full_grid_as_array",), POS_GETTERS=("get_position_grid_as_array", "get_radii"))
 
 PROPERTY = "C09"
 FUNCTIONS = ["molgri.space.fullgrid.from_full_array_to_o_b_t", "molgri.space.fullgrid.FullGrid.get_full_grid_as_array", "FullGrid.get_position_index", "FullGrid.get_quaternion_index", "FullGrid.__len__",
@@ -145,11 +147,17 @@ def run_shape(shape):
     N = n_b * n_o * n_t
     rng = np.random.default_rng(N)
     idx_sets = [None] + [[k] for k in range(N)] + [list(range(N))[::-1], [int(x) for x in rng.integers(0, N, size=N + 2)]]
+    dv = decoy_value_factory(eng)
 
     def body():
         with bound(F, print=noprint, np=proxy), bound(TR, np=proxy, print=noprint):
             o = DirStub(n_o, [], [1.0] * n_o, {}, {}, sp, lambda l: sarr(l), coords=sarr([[SR(x) for x in row] for row in O]))
-            fg = make_fullgrid(F, TR, Vm, 1, o, sarr([SR(x) for x in r]), 2)
+            radii = sarr([SR(x) for x in r])
+            # other grids of the same process under the same (lossy) names: built and asked for their arrays before the grid under test
+            # exists and again between its construction and its first getter
+            exercise_full_decoys(F, TR, Vm, 1, o, radii, 2, sarr, dv, tag="A", **ARRAY_GETTERS)
+            fg = make_fullgrid(F, TR, Vm, 1, o, radii, 2)
+            exercise_full_decoys(F, TR, Vm, 1, o, radii, 2, sarr, dv, tag="B", **ARRAY_GETTERS)
             fg.b_rotations = BRot(n_b, sarr([[SR(x) for x in row] for row in Q]), None)
             scratch = fg.get_full_grid_as_array()
             scratch[...] = 0                      # a caller is free to edit the array it got (unit conversion, shuffling ...)
@@ -259,7 +267,13 @@ def replay(cex):
     Q = np.array([[fval(model, f"q{i}_{c}", float(rng.normal())) for c in range(4)] for i in range(n_b)])
     r = np.array([fval(model, f"r{k}", 1.0 + 0.7 * k) for k in range(n_t)])
     o = DirStub(n_o, [], [1.0] * n_o, {}, {}, rsp, lambda l: np.array(l), coords=O)
-    fg = make_fullgrid(F, TR, Vm, 1, o, r, 2)
+    dvf = float_decoy_values()
+    mk = lambda l: np.array(l, dtype=float)
+    import contextlib, io
+    with contextlib.redirect_stdout(io.StringIO()):
+        exercise_full_decoys(F, TR, Vm, 1, o, r, 2, mk, dvf, tag="A", **ARRAY_GETTERS)
+        fg = make_fullgrid(F, TR, Vm, 1, o, r, 2)
+        exercise_full_decoys(F, TR, Vm, 1, o, r, 2, mk, dvf, tag="B", **ARRAY_GETTERS)
     fg.b_rotations = BRot(n_b, Q, None)
     N = n_b * n_o * n_t
     bad = []
